@@ -103,6 +103,7 @@ pub fn check(case: &Case) -> CheckResult {
     let mut info = CaseInfo::default();
     let mut a = Runner::new("c01");
     let mut accepted_nontrivial = 0;
+    let mut soft_reorged_at_hef: Option<u64> = None;
     for (i, op) in case.ops.iter().enumerate() {
         if let Op::Reorg { depth, keep_soft } = op {
             let soft = *keep_soft && a.soft_open();
@@ -115,9 +116,17 @@ pub fn check(case: &Case) -> CheckResult {
             let before = if !expected || n == h { Some(observe(&mut a.inst, &a.uni)) } else { None };
             let orphan_state = a.model.blocks[(n as usize + 1).min(a.model.blocks.len())..].iter().any(|b| b.state_changing);
             let was_committed = a.model.committed as u64 > n + 1;
+            let hef_before = a.model.hef;
             let r = a.reorg_to(n);
+            if soft && r.is_ok() {
+                // the unfinalised block's pool writes (versioned hef+1) are rolled back but what they pruned stays pruned
+                soft_reorged_at_hef = hef_before;
+            }
             if let crate::driver::Resp::Panic(m) = &r {
-                if soft && m.contains("Reorg too deep") && expected {
+                // same root cause, later manifestation: after an accepted reorg over such a block the row has lost the
+                // version an accepted reorg to exactly hef-10 needs (only that target can be affected: see DESIGN 4 #13)
+                let tainted = soft || (soft_reorged_at_hef.is_some() && soft_reorged_at_hef == hef_before);
+                if tainted && m.contains("Reorg too deep") && expected && hef_before == Some(n + 10) {
                     // known finding (see KNOWN_FINDINGS.txt): pool rows written for a block that is not finalised
                     // yet are pruned relative to that block, one block further than an accepted reorg may reach
                     fail!("C01/reorg-inside-window-panics-with-parked-tx-in-unfinalised-block", "op {} reorg({}) at height {} (hef {:?}) with a parked transaction in the unfinalised block: {}", i, n, h, a.model.hef, m);
